@@ -505,6 +505,36 @@ def search(ctx):
                 seen.add(w["key"])
                 w["class"] = label
                 out.append(w)
+    # DATE / TIME fields under other process time zones (west and east of Greenwich): what the bits say must not depend
+    # on the host configuration
+    import os as _os
+    import time as _time
+    old_tz = _os.environ.get("TZ")
+    try:
+        for tz in ("EST5EDT", "HST10", "NZST-12", "CET-1CEST"):
+            _os.environ["TZ"] = tz
+            _time.tzset()
+            for d in defs:
+                if not PL.supported(d) or not any(f.get("FieldType") in ("DATE", "TIME") for f in d["Fields"]):
+                    continue
+                g = grp[d["PGN"]]
+                multi = len(g) > 1 and any("Match" in f for x in g for f in x["Fields"])
+                if not multi and d is not g[-1]:
+                    continue
+                for label, p in PL.payload_set(d, rng, per_field_classes=True, n_random=1)[:ctx.n(6, 30)]:
+                    w = check_payload(d, p, tables)
+                    if w and w["key"] + ":tz" not in seen and w["key"] not in seen:
+                        w["key"] += ":tz"
+                        w["tz"] = tz
+                        w["what"] += f" (process time zone {tz})"
+                        seen.add(w["key"])
+                        out.append(w)
+    finally:
+        if old_tz is None:
+            _os.environ.pop("TZ", None)
+        else:
+            _os.environ["TZ"] = old_tz
+        _time.tzset()
     out += E2E.search(ctx)
     return out
 
@@ -516,6 +546,22 @@ def replay(ctx, data):
     d = next((x for x in PL.definitions() if x["PGN"] == w["pgn"] and x["Id"] == w["id"]), None)
     if d is None:
         return True
+    if w.get("tz"):
+        import os as _os
+        import time as _time
+        old = _os.environ.get("TZ")
+        _os.environ["TZ"] = w["tz"]
+        _time.tzset()
+        try:
+            r = check_payload(d, int(w["payload"]), _lookup_tables(), warm=bool(w.get("warm")))
+        finally:
+            if old is None:
+                _os.environ.pop("TZ", None)
+            else:
+                _os.environ["TZ"] = old
+            _time.tzset()
+        print("observed:", r["what"] if r else "property holds on this input")
+        return r is not None
     r = check_payload(d, int(w["payload"]), _lookup_tables(), warm=bool(w.get("warm")))
     print("observed:", r["what"] if r else "property holds on this input")
     return r is not None and (r["key"] == w.get("key") or "key" not in w)
